@@ -77,6 +77,15 @@ def _box(cfg):
     return float(lo), float(hi)
 
 
+def _boxv(cfg, dim):
+    """per-dimension bounds: "box" for the first coordinate, "boxy" (default: the same) for the second"""
+    lo, hi = _box(cfg)
+    if dim == 1 or "boxy" not in cfg:
+        return (lo,) * dim, (hi,) * dim
+    lo2, hi2 = cfg["boxy"]
+    return (lo, float(lo2)) + (lo,) * (dim - 2), (hi, float(hi2)) + (hi,) * (dim - 2)
+
+
 def _rar(cfg, which):
     if not cfg.get("rar"):
         return None
@@ -129,6 +138,7 @@ def _border_store(g, cfg, dim, lo, hi):
     dt = bd.dtype.type
     if dim == 1:
         reg = Registry([bd.reshape(1, 2)])
+        lo, hi = np.asarray(lo, dtype=np.float64).reshape(-1)[0], np.asarray(hi, dtype=np.float64).reshape(-1)[0]
         st = _store("border", mode="static", req=1, b=1, neff=1, init=[1], cur0=0, inDom=[True], shape=list(bd.shape),
                     onFacet=[[bool(bd[0] == dt(lo)), bool(bd[1] == dt(hi))]], along=[[True, True]], mask=[True])
         facet_regs = [Registry([bd[0:1]]), Registry([bd[1:2]])]
@@ -136,11 +146,12 @@ def _border_store(g, cfg, dim, lo, hi):
     nbf = bd.shape[0]
     reg = Registry(list(bd))
     on, al = [], []
+    lx, ly = (dt(v) for v in np.broadcast_to(np.asarray(lo, dtype=np.float64), (2,)))
+    hx, hy = (dt(v) for v in np.broadcast_to(np.asarray(hi, dtype=np.float64), (2,)))
     for k in range(nbf):
         m = bd[k]  # (2, 4): rows = coordinates, columns = facets xmin xmax ymin ymax
-        on.append([bool(m[0, 0] == dt(lo)), bool(m[0, 1] == dt(hi)), bool(m[1, 2] == dt(lo)), bool(m[1, 3] == dt(hi))])
-        al.append([bool(dt(lo) <= m[1, 0] <= dt(hi)), bool(dt(lo) <= m[1, 1] <= dt(hi)),
-                   bool(dt(lo) <= m[0, 2] <= dt(hi)), bool(dt(lo) <= m[0, 3] <= dt(hi))])
+        on.append([bool(m[0, 0] == lx), bool(m[0, 1] == hx), bool(m[1, 2] == ly), bool(m[1, 3] == hy)])
+        al.append([bool(ly <= m[1, 0] <= hy), bool(ly <= m[1, 1] <= hy), bool(lx <= m[0, 2] <= hx), bool(lx <= m[0, 3] <= hx)])
     st = _store("border", req=cfg["nb"] // 4, b=cfg["bb"], neff=nbf, init=reg.ids(list(bd)),
                 cur0=int(g.curr_omega_border_idx), inDom=[True] * nbf, shape=list(bd.shape), onFacet=on, along=al,
                 mask=[True] * nbf)
@@ -153,10 +164,10 @@ def _mk_pde(cfg, nonstatio):
     from jinns.data._DataGenerators import CubicMeshPDEStatio, CubicMeshPDENonStatio
 
     dim = cfg["dim"]
-    lo, hi = _box(cfg)
+    lo, hi = _boxv(cfg, dim)
     rar = _rar(cfg, "omega")
     kw = dict(key=jax.random.PRNGKey(cfg["seed"]), n=cfg["n"], nb=cfg.get("nb"), omega_batch_size=cfg["b"],
-              omega_border_batch_size=cfg.get("bb"), dim=dim, min_pts=(lo,) * dim, max_pts=(hi,) * dim,
+              omega_border_batch_size=cfg.get("bb"), dim=dim, min_pts=tuple(lo), max_pts=tuple(hi),
               method=cfg.get("method", "uniform"), rar_parameters=rar, n_start=cfg.get("nstart") if rar else None)
     if nonstatio:
         tlo, thi = cfg.get("tbox", [0.0, 1.0])
@@ -172,14 +183,15 @@ def _omega_store(g, cfg, dim, lo, hi):
     reg = Registry(list(om))
     rar = bool(cfg.get("rar"))
     st = _store("omega", req=cfg["n"], b=cfg["b"], neff=(cfg["nstart"] if rar else cfg["n"]), init=reg.ids(list(om)),
-                cur0=int(g.curr_omega_idx), inDom=[bool(np.all((dt(lo) <= r) & (r <= dt(hi)))) for r in om],
+                cur0=int(g.curr_omega_idx),
+                inDom=[bool(np.all((np.asarray(lo, dtype=om.dtype) <= r) & (r <= np.asarray(hi, dtype=om.dtype)))) for r in om],
                 shape=list(om.shape), mask=_mask(g.p_omega, om.shape[0]))
     return st, reg
 
 
 def case_statio(cfg):
     dim = cfg["dim"]
-    lo, hi = _box(cfg)
+    lo, hi = _boxv(cfg, dim)
     tr = _trace(cfg, "statio", dim)
     try:
         g = _mk_pde(cfg, False)
@@ -215,7 +227,7 @@ def case_statio(cfg):
 
 def case_nonstatio(cfg):
     dim = cfg["dim"]
-    lo, hi = _box(cfg)
+    lo, hi = _boxv(cfg, dim)
     tlo, thi = cfg.get("tbox", [0.0, 1.0])
     tr = _trace(cfg, "nonstatio", dim, cfg.get("cart", True))
     try:
